@@ -19,7 +19,8 @@ pub fn viol(property: &'static str, sig: String, detail: String) -> Violation {
 /// The scenario's goal predicate, evaluated by the harness (metric ball and, if present, the
 /// component condition).
 pub fn goal_sat(geo: &dyn Geo, g: &GoalSpec, s: &[f64]) -> bool {
-    if !(geo.d(&g.target, s) <= g.radius) {
+    let d = if g.harness_metric { crate::spaces::HMetric::new(geo.spec()).d(&g.target, s) } else { geo.d(&g.target, s) };
+    if !(d <= g.radius) {
         return false;
     }
     match &g.comp {
